@@ -374,11 +374,23 @@ theorem checkRelationComponent_cases (c : Comp) (w : World) :
   · exact Or.inl rfl
   · exact Or.inr rfl
 
-/-- the pre-validation of the typed paths never changes the state -/
+/-- the pre-validation (of every path, since the repair of the `Unsafe` API) never changes the
+    state -/
 theorem preCheck_cases (p : Path) (ids : List Comp) (rels : List RelID) (w : World) :
     preCheck p ids rels w = .ok () w ∨ ∃ (k : PanicKind), preCheck p ids rels w = .panic k w := by
   cases p with
-  | unsafe_ => exact Or.inl rfl
+  | unsafe_ =>
+    apply forM'_check
+    intro r
+    simp only [bind, M.bind]
+    rcases checkRelationTarget_cases r.target w with h | h
+    · rcases checkRelationComponent_cases r.comp w with h2 | h2
+      · simp only [h, h2, M.assert]
+        split
+        · exact Or.inl rfl
+        · exact Or.inr ⟨_, rfl⟩
+      · simp only [h, h2]; exact Or.inr ⟨_, rfl⟩
+    · simp only [h]; exact Or.inr ⟨_, rfl⟩
   | map1 =>
     apply forM'_check
     intro r
@@ -402,11 +414,13 @@ theorem preCheck_cases (p : Path) (ids : List Comp) (rels : List RelID) (w : Wor
       · simp only [h, h2]; exact Or.inr ⟨_, rfl⟩
     · simp only [h]; exact Or.inr ⟨_, rfl⟩
 
-/-- **rejection** (typed paths): a relation list whose components are valid but which names a
-    dead target is refused with `deadTarget` before anything is touched -/
-theorem preCheck_deadTarget (p : Path) (hp : p ≠ .unsafe_) (ids : List Comp) (w : World) :
+/-- **rejection** (every path, since the repair of the `Unsafe` API): a relation list whose
+    components are valid but which names a dead target is refused with `deadTarget` before
+    anything is touched -/
+theorem preCheck_deadTarget' (p : Path) (ids : List Comp) (w : World) :
     ∀ (rels : List RelID),
-      (∀ (r : RelID), r ∈ rels → w.isRelComp r.comp = true ∧ (Mask.ofList ids).get r.comp = true) →
+      (∀ (r : RelID), r ∈ rels →
+        w.isRelComp r.comp = true ∧ (p ≠ .map1 → (Mask.ofList ids).get r.comp = true)) →
       (∃ (r : RelID), r ∈ rels ∧ r.target.isZero = false ∧ w.alive r.target = false) →
       preCheck p ids rels w = .panic .deadTarget w := by
   intro rels
@@ -414,10 +428,11 @@ theorem preCheck_deadTarget (p : Path) (hp : p ≠ .unsafe_) (ids : List Comp) (
   | nil => rintro _ ⟨r, hr, _⟩; cases hr
   | cons r rest ih =>
     intro hv hex
-    have hvr := hv r List.mem_cons_self
+    have hvr' := hv r List.mem_cons_self
+    have hvr : w.isRelComp r.comp = true ∧ (p ≠ .map1 → (Mask.ofList ids).get r.comp = true) := hvr'
     by_cases hd : r.target.isZero = false ∧ w.alive r.target = false
     · cases p with
-      | unsafe_ => exact absurd rfl hp
+      | unsafe_ => simp [preCheck, preCheckTyped, M.forM', bind, M.bind, checkRelationTarget, hd.1, hd.2]
       | map1 => simp [preCheck, preCheckMap, M.forM', bind, M.bind, checkRelationTarget, hd.1, hd.2]
       | typed => simp [preCheck, preCheckTyped, M.forM', bind, M.bind, checkRelationTarget, hd.1, hd.2]
     · have hok : checkRelationTarget r.target w = .ok () w := by
@@ -435,7 +450,11 @@ theorem preCheck_deadTarget (p : Path) (hp : p ≠ .unsafe_) (ids : List Comp) (
         · exact ⟨r', hm, h1, h2⟩
       have ih' := ih (fun r' hr' => hv r' (List.mem_cons_of_mem _ hr')) hex'
       cases p with
-      | unsafe_ => exact absurd rfl hp
+      | unsafe_ =>
+        simp only [preCheck, preCheckTyped] at ih' ⊢
+        simp only [M.forM', bind, M.bind, hok, checkRelationComponent, hvr.1, if_true, M.assert,
+          hvr.2 (by decide)]
+        exact ih'
       | map1 =>
         simp only [preCheck, preCheckMap] at ih' ⊢
         simp only [M.forM', bind, M.bind, hok, checkRelationComponent, hvr.1, if_true]
@@ -443,8 +462,17 @@ theorem preCheck_deadTarget (p : Path) (hp : p ≠ .unsafe_) (ids : List Comp) (
       | typed =>
         simp only [preCheck, preCheckTyped] at ih' ⊢
         simp only [M.forM', bind, M.bind, hok, checkRelationComponent, hvr.1, if_true, M.assert,
-          hvr.2]
+          hvr.2 (by decide)]
         exact ih'
+
+/-- `preCheck_deadTarget'` with the membership hypothesis stated for every path (it is used by
+    `.typed` and `.unsafe_` only) -/
+theorem preCheck_deadTarget (p : Path) (ids : List Comp) (w : World) (rels : List RelID)
+    (hv : ∀ (r : RelID), r ∈ rels →
+      w.isRelComp r.comp = true ∧ (Mask.ofList ids).get r.comp = true)
+    (hd : ∃ (r : RelID), r ∈ rels ∧ r.target.isZero = false ∧ w.alive r.target = false) :
+    preCheck p ids rels w = .panic .deadTarget w :=
+  preCheck_deadTarget' p ids w rels (fun r hr => ⟨(hv r hr).1, fun _ => (hv r hr).2⟩) hd
 
 /-- without observers, `NewEntity(ids…, rels…)` through any path is: pre-validation, table
     lookup, `placeNew`, `registerTargets`, writes -/
